@@ -6,6 +6,7 @@ import (
 
 	"github.com/ipfs/go-cid"
 	"github.com/ipni/go-libipni/dagsync"
+	"github.com/libp2p/go-libp2p/core/peer"
 
 	"verif/sim/simkit"
 )
@@ -49,10 +50,18 @@ func runC04S(r *simkit.Run, c Cfg) {
 		r.ParkHook("pub.read", w.CidName(c), nil)
 	}
 	var onRead func(n int)
+	// after a successful sync the subscriber remembers the publisher's
+	// address in its libp2p peerstore: later syncs may name the ID alone
+	idOnly := false
 	run := func(label string, onHook func(n int) bool) *result {
 		res := &result{}
+		target := pub.AddrInfo()
+		if idOnly {
+			target = peer.AddrInfo{ID: pub.Ident.ID}
+			r.Probe("sync-by-id-alone-over-streams")
+		}
 		r.Go(label, func(t *simkit.Task) {
-			res.got, res.err = sub.Sub.SyncAdChain(bg, pub.AddrInfo())
+			res.got, res.err = sub.Sub.SyncAdChain(bg, target)
 			res.done = true
 			t.Logf("%s -> %s err=%v", label, w.CidName(res.got), res.err)
 		})
@@ -92,6 +101,7 @@ func runC04S(r *simkit.Run, c Cfg) {
 			return
 		}
 		lst.drain()
+		idOnly = tp.Chance(1, 2, "idOnly")
 	}
 	pub.Extend(nAds - pre)
 	head := pub.Head()
